@@ -291,7 +291,7 @@ def kwargs_lookup_rule(repo, res, inv):
     import json
     import os
 
-    r10 = res.rule("C06-R10", "handlers with *args never read a positional-capable NumPy parameter out of **kwargs", floor=30)
+    r10 = res.rule("C06-R10", "handlers with *args never read a positional-capable NumPy parameter out of **kwargs alone (the positional form args[k] must be consulted too)", floor=30)
     with open(os.path.join(os.path.dirname(os.path.dirname(os.path.abspath(__file__))), "spec", "numpy_defaults.json"), encoding="utf-8") as f:
         positional = json.load(f)["positional"]
     for h in inv:
@@ -312,7 +312,18 @@ def kwargs_lookup_rule(repo, res, inv):
             elif isinstance(n, ast.Compare) and len(n.ops) == 1 and isinstance(n.ops[0], (ast.In, ast.NotIn)) and norm(n.comparators[0]) == fn.kwarg and isinstance(n.left, ast.Constant):
                 key = n.left.value
             if key in names:
-                bad.append((n, key))
+                # fine when the handler looks at the positional form as well: args[k] with k the parameter's position in
+                # NumPy's signature minus the handler's own leading named parameters
+                handled = False
+                for t in h.targets:
+                    pos = positional.get(t, [])
+                    if key in pos:
+                        k = pos.index(key) - len([p for p in fn.params if p in pos[: pos.index(key)]])
+                        for m in walk_no_nested(fn.node):
+                            if isinstance(m, ast.Subscript) and norm(m.value) == fn.vararg and isinstance(m.slice, ast.Constant) and m.slice.value == k:
+                                handled = True
+                if not handled:
+                    bad.append((n, key))
         g = f"@{_g(fn.gate)}" if fn.gate else ""
         res.check(not bad, f"{fn.name}{g}:kwargs-lookup", fn.where(bad[0][0]) if bad else fn.where(), f"{fn.name} reads NumPy's parameter {bad[0][1]!r} from **{fn.kwarg} although it also forwards *{fn.vararg}: passed positionally the value is invisible to the handler, which then treats NumPy's result as if the default had been used" if bad else "", "a named parameter in the handler's signature", [k for _, k in bad], rid=r10)
 
@@ -520,6 +531,10 @@ def _roots(expr, fn, defs, pmap):
         idx = PASS_THROUGH[expr.func.id][0]
         if idx is not None and len(expr.args) > idx:
             return _roots(expr.args[idx], fn, defs, pmap)
+    # a unit conversion re-expresses the same data in the unit the computation is carried out in (the destination's
+    # unit for a masked copy, the first operand's for comparisons): the numbers NumPy sees are the caller's data in that unit
+    if isinstance(expr, ast.Call) and isinstance(expr.func, ast.Attribute) and expr.func.attr in ("to", "in_units", "to_value") and len(expr.args) == 1 and norm(expr.args[0]).endswith(".units"):
+        return _roots(expr.func.value, fn, defs, pmap)
     src = source_params(expr, fn, defs)
     out = set()
     for s in src:
